@@ -273,6 +273,38 @@ theorem traffic_follows_last_accepted (s : Active) (bodies : List Node) (k : Kin
       have : lastValid (bs ++ [b]) = lastValid bs := by simp [lastValid, hv]
       rw [this, rejected_leaves_previous _ b hv, ih]
 
+/-- **Replacement is complete after any history.** Whatever was done to the endpoint before — bodies
+accepted or rejected, modifiers installed through `SetRequestModifier` / `SetResponseModifier` in any
+order — an accepted body installs exactly its own compilation: nothing of the earlier state survives. -/
+theorem accepted_post_replaces_after_any_history (s : Active) (ops : List EOp) (body : Node) (r : Result)
+    (h : compile body = .ok r) : afterOps s (ops ++ [.post body]) = r := by
+  simp [afterOps, List.foldl_append, applyOp, servePOST, h]
+
+/-- … so the traffic after it is treated as the depth-first reading of that body says, on both sides,
+also when one side had been replaced through the Go API since the same body was last accepted. -/
+theorem accepted_post_discards_installed_modifiers (s : Active) (ops : List EOp) (body : Node)
+    (hv : valid body = true) (k : Kind) (msg : Msg) :
+    flatO (run (afterOps s (ops ++ [.post body])) k msg) = specEval k (msg k) body := by
+  obtain ⟨r, hr⟩ := (accept_iff_valid body).mpr hv
+  rw [accepted_post_replaces_after_any_history s ops body r hr]
+  exact compile_eval_eq_spec body r k msg hr
+
+/-- `Set*Modifier` replaces one side only: the other side treats every message as before. -/
+theorem set_leaves_other_side (s : Active) (k k' : Kind) (m : Option Mod) (hk : k' ≠ k) (msg : Msg) :
+    run (setSide s k m) k' msg = run s k' msg := by
+  cases k <;> cases k' <;> simp_all [setSide, run, Result.side]
+
+/-- … and on its own side it installs exactly the given modifier (`nil` = noop). -/
+theorem set_installs_side (s : Active) (k : Kind) (m : Option Mod) (msg : Msg) :
+    run (setSide s k m) k msg = eval (msg k) (orNoop m) := by
+  cases k <;> simp [setSide, run, Result.side]
+
+/-- A rejected body leaves the pair in force, also a side installed through the Go API. -/
+theorem rejected_post_keeps_installed_modifiers (s : Active) (ops : List EOp) (body : Node)
+    (hv : valid body = false) : afterOps s (ops ++ [.post body]) = afterOps s ops := by
+  obtain ⟨e, he⟩ := reject_whole body hv
+  simp [afterOps, List.foldl_append, applyOp, servePOST, he]
+
 /-! ## 7. Regenerated facts (from `/repo`'s source on every run; `decide` on a finite table) -/
 
 /-- The event order of `martianhttp.Modifier.servePOST` that `Config.servePOST` transcribes. -/
@@ -356,5 +388,9 @@ example : runTree (.fifo none false [leafOK 1]) .req noAtom = some ([1], []) := 
 /-- reconfiguration: rejected body keeps the old tree, accepted body replaces it -/
 example : (lastValid [exTree, .unknown]).isSome = true ∧ (lastValid [.unknown]).isSome = false := by decide
 example : insertAll [((0 : Int), 1), (5, 2), (0, 3), (5, 4), (9, 5)] = [(9, 5), (5, 4), (5, 2), (0, 3), (0, 1)] := by decide
+
+-- a side installed through the API is discarded by re-posting the body that was already accepted
+example : (afterOps Active.init [.post exTree, .set .req none, .post exTree]).req.isSome = true ∧
+    (afterOps Active.init [.post exTree, .set .req none]).req.isSome = false := by decide
 
 end Martian.Props.C12
